@@ -73,9 +73,27 @@ def main(c):
                 "acts": ["Deliver", "RTop", "RRead", "RLock", "RTop", "TFire:1", "Deliver", "RRead", "RLock", "RTop", "Deliver",
                          "RRead", "RLock", "TSend:1", "TLock:1", "TSet:1", "RTop", "Deliver", "RRead", "RLock"]}) + "\n")
             nsched += 1
+            # 2c. goal-directed schedules from the model of the repaired code with stalls (StallFire): shortest behaviours
+            #     in which a fired timer callback is still parked when the channel has been closed, after Close and after
+            #     end of input; on the real parser the callback is released last and must find nothing left to do
+            ok, _ = c.model_check(specs, "MC_ParserLife.tla", "MC_ParserLife_fixed_stall.cfg", workers=16)
+            if not ok:
+                c.notes.append("MODEL: ParserLife (repaired shape, stalls) violates a property in the bounded model - candidate")
+            for goal in ("GoalLateAfterClose", "GoalLateAfterEOF"):
+                dump = os.path.join(c.scratch, "goal_%s.json" % goal)
+                ok, _ = c.model_check(specs, "MC_ParserLife_Gen.tla", "MC_ParserLife_%s.cfg" % goal, workers=1,
+                                      extra=("-dumpTrace", "json", dump), expect_violation=True)
+                if not ok and os.path.exists(dump):
+                    last = json.load(open(dump))["counterexample"]["state"][-1][1]
+                    acts = list(last["hist"])
+                    for k, t in enumerate(last["tm"]):
+                        if t == "fired":
+                            acts += ["FLock:%d" % (k + 1), "FSet:%d" % (k + 1)]
+                    out.write(json.dumps({"inp": last["inp"], "eofGap": last["eofGap"], "acts": acts}) + "\n")
+                    nsched += 1
             # 3. random behaviours of both shapes
             walks = 150 if c.tier == "quick" else 2500
-            for cfg in ("MC_ParserLife_GenFixed.cfg", "MC_ParserLife_Gen.cfg"):
+            for cfg in ("MC_ParserLife_GenFixed.cfg", "MC_ParserLife_GenFixedStall.cfg", "MC_ParserLife_Gen.cfg"):
                 md = os.path.join(c.scratch, "sim-" + cfg)
                 p = subprocess.run(["tlc", "-workers", "1", "-simulate", "num=%d" % walks, "-depth", "90", "-seed", str(c.seed),
                                     "-metadir", md, "-config", cfg, "MC_ParserLife_Gen.tla"],
